@@ -6,6 +6,7 @@ import senderlib
 def main():
     fam = sys.argv[1]; n = int(sys.argv[2]); depth = int(sys.argv[3]) if len(sys.argv) > 3 else 0
     ctx = Ctx("CXX", "quick", 1)
+    ctx.conformance_spec = "Trace_Sender"
     behs = senderlib.gen(ctx, fam, depth)
     behs = senderlib.sample(behs, n, 1)
     senderlib.run_behaviours(ctx, behs, fam)
@@ -18,5 +19,11 @@ def main():
         print("     by (scheme,clen) of obj1:", dict(cc))
         print("     beh:", json.dumps({"cfg": {k2: b["cfg"][k2] for k2 in b["cfg"] if k2 not in ("E", "B", "scheme")}, "objs": b["objs"], "ops": b["ops"]})[:700])
     print(ctx.notes)
+    for lab, c in ctx.conformance.items():
+        print("CONFORMANCE", lab, {k: c[k] for k in ("matched", "unsupported", "drifted")}, c["errors"][:1])
+        for d in c["first_drifts"][:4]:
+            print("  DRIFT", json.dumps({k: d[k] for k in d if k != "behaviour"})[:700])
+            if d.get("behaviour"):
+                b = d["behaviour"]; print("     beh:", json.dumps({"cfg": {k2: b["cfg"][k2] for k2 in b["cfg"] if k2 not in ("E", "B", "scheme")}, "objs": b["objs"], "ops": b["ops"]})[:600])
     ctx.cleanup()
 main()
